@@ -351,7 +351,11 @@ func runCell(c Cell) (outcome, error) {
 	if c.Backend == "json-restart" {
 		// everything so far has reached the file; from here on the periodic save fails (its temp file cannot be
 		// written: full or read-only disk) ...
-		time.Sleep(8 * time.Millisecond)
+		// (flushed explicitly: the data file exists as a regular file before the temp file's path is occupied, so a save
+		// caught between writing and renaming its temp file cannot rename the blocker into the data file's place)
+		if err := jsPers.Flush(); err != nil {
+			return out, errSkipCell
+		}
 		os.Remove(jsBlocker)
 		os.Mkdir(jsBlocker, 0o755)
 	}
@@ -425,8 +429,9 @@ func runCell(c Cell) (outcome, error) {
 		time.Sleep(8 * time.Millisecond)
 		os.Remove(jsBlocker)
 		time.Sleep(8 * time.Millisecond)
+		os.RemoveAll(jsBlocker)
 		if err := jsPers.Close(); err != nil {
-			return out, fmt.Errorf("setup: closing the JSON store: %w", err)
+			return out, errSkipCell // the fault rig itself got in the way of the final save: nothing to judge
 		}
 		pers2, err := jsonstorage.New(&jsonstorage.Config{FilePath: jsPath, AutoSave: false})
 		if err != nil {
@@ -656,6 +661,9 @@ func TestOwnTunnelRecognised(t *testing.T) {
 	}
 }
 
+// errSkipCell: the cell's rig could not be brought into the intended state for a reason of its own making
+var errSkipCell = fmt.Errorf("cell skipped")
+
 var (
 	setupMu     sync.Mutex
 	setupFailed []string
@@ -682,6 +690,11 @@ func check(t vkit.TB, c Cell) {
 		// no free loopback port at this instant (many short-lived listeners and connections on a busy machine)
 		time.Sleep(250 * time.Millisecond)
 		out, err = runCell(c)
+	}
+	if err == errSkipCell {
+		vkit.Skipped(1)
+		vkit.Class("json-restart: fault rig collided with a save, cell skipped")
+		return
 	}
 	if err != nil {
 		// a cell that cannot be set up is remembered and the enumeration goes on: a change to the code under test
